@@ -17,7 +17,7 @@ func GenC06(verifSeed uint64, run int) *Scenario {
 	}
 	for _, f := range Formats {
 		plan.Variants = append(plan.Variants, Variant{Format: f})
-		if signable(f) && g.Bool(0.4) {
+		if signable(f) && (g.Bool(0.4) || contains(w.Signed, f)) {
 			plan.Variants = append(plan.Variants, Variant{Format: f, Sign: "callback"})
 		}
 		if contains(w.Signed, f) && g.Bool(0.3) {
@@ -188,11 +188,10 @@ func (s *c06state) reference(v Variant, cfg string) (*RefInfo, bool) {
 		s.count("reference_failed", 1)
 		return ref, false
 	}
-	if !ref.Stable {
+	if ref.KeyFileSigned {
+		s.count("probe.keyfile_signed_variant_no_byte_oracle", 1)
+	} else if !ref.Stable {
 		s.count("unstable_reference", 1)
-	}
-	if ref.Hi > ref.Lo {
-		s.count("probe.keyfile_signature_volatile_span", 1)
 	}
 	return ref, true
 }
